@@ -79,8 +79,11 @@ def successors(w, cfg, driver):
     out = []
     if pend:
         out.append((('deliver',) + pend[0], 0))
+        # a slow exchange is another way of performing the default delivery: no deviation (it has its own budget)
+        slow = [e for e in env if e[0] in ('hang', 'lag') and (e[1], e[2]) == pend[0]]
+        out += [(e, 0) for e in slow]
         out += [(('deliver',) + k, 1) for k in pend[1:]]
-        out += [(e, 1) for e in env]
+        out += [(e, 1) for e in env if e not in slow]
     elif driver.urgent_procs:
         urgent = [e for e in env if e[0] == 'proc']
         if urgent:
